@@ -46,6 +46,31 @@ CHECKS['C05'] = dict(
               "a denotation spec, lemmas), native replay",
     design='4 C05')
 
+CHECKS['C02'] = dict(
+    category='proof',
+    text="Deductive (all inputs): ItemID.can_depend_on is proved to admit exactly earlier siblings of an ancestor-"
+         "or-self of the citing step, and lemmas show such a step lies strictly earlier in the checker's depth-first "
+         "order, never inside a closed block, never the step itself; Thm.can_prove = same conclusion, hypotheses "
+         "subset. The checker-level statement (check_proof, _check_proof_item, checked_extend) is covered by a "
+         "bounded stand-in only: exhaustive small proof objects and seeded mutations run through the real checker "
+         "with a truth-table oracle - labelled bounded, not counted as proved.",
+    note="Trusted: pyvc, z3. _check_proof_item itself is not under contract (needs a heap model of mutable "
+         "Proof/ProofItem objects); its behaviour is explored, not proved.",
+    technique="contract-based deductive verification of the dependency rule + run-time contract on the real "
+              "checker over enumerated proof objects (bounded stand-in)",
+    design='4 C02')
+
+CHECKS['C13'] = dict(
+    category='proof',
+    text="Deductive (all inputs): incr_id_after / decr_id / incr_id / last are proved equal to the renumbering "
+         "spec; renumbering is injective and length preserving; (bounded: sequence lengths <= 4) it preserves the "
+         "dependency relation between surviving lines. The whole-state editing invariant is not covered.",
+    note="Trusted: pyvc, z3. Three lemmas are bounded (enumerated lengths), reported separately. ProofState-level "
+         "clauses (re-check, export/import, copy isolation) are out of reach of the current engine.",
+    technique="contract-based deductive verification of the identifier arithmetic (ast->z3, sequence theory), "
+              "bounded enumeration for three lemmas",
+    design='4 C13')
+
 NOT_APPLICABLE = {
     'C19': "real-analytic equality of integrals/limits/series with a numeric floating-point oracle; no decidable "
            "function contract (DESIGN 4 C19)",
